@@ -1,4 +1,247 @@
+(* C14 - lemmas: can_do is the role intersection; the save, query and delivery paths are
+   guarded; role storage reads back the last assignment on both backends. *)
 From NR Require Import Lib.Base Lib.BaseFacts Lib.PyRt C15.Rt Gen.Auth C14.Model C14.Spec.
+From Coq Require Import ZifyBool Sorting.Sorted.
 Open Scope Z_scope.
-Lemma placeholder : default_roles = anonymous.
-Proof. reflexivity. Qed.
+
+(* ================================================================== can_do *)
+Lemma role_inter_nonempty a b : is_nil (role_inter a b) = false <-> exists r, In r a /\ In r b.
+Proof.
+  unfold role_inter. induction a as [|x a IH]; simpl.
+  - split; [discriminate | intros [r [[] _]]].
+  - destruct (mem_N x b) eqn:M; simpl.
+    + apply mem_N_In in M. split; [intros _; exists x; auto | reflexivity].
+    + rewrite IH. split.
+      * intros [r [H1 H2]]. exists r. auto.
+      * intros [r [[<-|H1] H2]]; [apply mem_N_In in H2; congruence | exists r; auto].
+Qed.
+
+Lemma token_roles_spec tk : token_roles tk = roles_of_token tk.
+Proof. destruct tk; reflexivity. Qed.
+
+Lemma can_do_spec c tk a : can_do c tk a = true <-> permitted c tk a.
+Proof.
+  unfold can_do, can_do_core, permitted, evaluate_target_save_query. rewrite token_roles_spec.
+  destruct (ac_enabled c).
+  - rewrite andb_true_r, negb_true_iff, role_inter_nonempty. split.
+    + intros [r [H1 H2]] _. exists r. auto.
+    + intros H. destruct (H eq_refl) as [r [H1 H2]]. exists r. auto.
+  - split; [intros _ H; discriminate | reflexivity].
+Qed.
+
+Lemma permittedb_spec c tk a : permittedb c tk a = true <-> permitted c tk a.
+Proof.
+  unfold permittedb, permitted. destruct (ac_enabled c); simpl.
+  - rewrite existsb_exists. split.
+    + intros [r [H1 H2]] _. exists r. apply mem_N_In in H2. auto.
+    + intros H. destruct (H eq_refl) as [r [H1 H2]]. exists r. apply mem_N_In in H2. auto.
+  - split; [intros _ H; discriminate | reflexivity].
+Qed.
+
+(* ================================================================== save path, per backend *)
+Lemma save_checked_all b : save_checked b = true.
+Proof. destruct b; reflexivity. Qed.
+
+Lemma add_event_done b c tk ctor_ok valid :
+  add_event b c tk ctor_ok valid = AddDone <-> ctor_ok = true /\ valid = true /\ permitted c tk ASave.
+Proof.
+  unfold add_event. rewrite save_checked_all. rewrite <- can_do_spec.
+  destruct ctor_ok, valid, (can_do c tk ASave); simpl; split; try discriminate; try tauto; intros (A & B & C); discriminate.
+Qed.
+
+Lemma add_event_restricted b c tk ctor_ok valid :
+  add_event b c tk ctor_ok valid = AddRestricted <-> ctor_ok = true /\ valid = true /\ ~ permitted c tk ASave.
+Proof.
+  unfold add_event. rewrite save_checked_all. rewrite <- can_do_spec.
+  destruct ctor_ok, valid, (can_do c tk ASave); simpl; split; try discriminate; try tauto;
+    try (intros (A & B & C); try discriminate; exfalso; apply C; reflexivity).
+  intros _. repeat split. discriminate.
+Qed.
+
+(* ================================================================== query path *)
+Lemma subscribe_started c tk limit subs sid f p subs' :
+  subscribe c tk limit subs sid f p = (SubStarted, subs') -> permitted c tk AQuery /\ In sid subs'.
+Proof.
+  unfold subscribe. destruct (negb (limit =? 0) && _); [discriminate|].
+  destruct (negb f); [discriminate|]. destruct (negb p); [discriminate|].
+  change subscribe_query_checked with true. simpl.
+  destruct (can_do c tk AQuery) eqn:E; simpl; [|discriminate].
+  intros H. injection H as <-. split; [apply can_do_spec; exact E | apply in_or_app; right; left; reflexivity].
+Qed.
+
+Lemma subscribe_not_started c tk limit subs sid f p o subs' :
+  subscribe c tk limit subs sid f p = (o, subs') -> o <> SubStarted ->
+  ~ In sid subs' /\ (forall s, In s subs' -> In s subs).
+Proof.
+  unfold subscribe. set (subs1 := filter (fun s => negb (str_eqb s sid)) subs).
+  assert (N : ~ In sid subs1) by (unfold subs1; rewrite filter_In, str_eqb_refl; intros [_ H]; discriminate).
+  assert (S : forall s, In s subs1 -> In s subs) by (unfold subs1; intros s H; apply filter_In in H; tauto).
+  destruct (negb (limit =? 0) && _); [intros H _; injection H as <- <-; auto|].
+  destruct (negb f); [intros H _; injection H as <- <-; auto|].
+  destruct (negb p); [intros H _; injection H as <- <-; auto|].
+  destruct (subscribe_query_checked && negb (can_do c tk AQuery)); [intros H _; injection H as <- <-; auto|].
+  intros H D. injection H as <- <-. contradiction.
+Qed.
+
+Lemma subscribe_restricted c tk limit subs sid f p subs' :
+  subscribe c tk limit subs sid f p = (SubRestricted, subs') -> ~ permitted c tk AQuery.
+Proof.
+  unfold subscribe. destruct (negb (limit =? 0) && _); [discriminate|].
+  destruct (negb f); [discriminate|]. destruct (negb p); [discriminate|].
+  change subscribe_query_checked with true. simpl.
+  destruct (can_do c tk AQuery) eqn:E; simpl; [discriminate|].
+  intros _ H. apply can_do_spec in H. congruence.
+Qed.
+
+Lemma subscribe_permitted_starts c tk limit subs sid :
+  permitted c tk AQuery ->
+  (limit = 0 \/ Z.of_nat (length (filter (fun s => negb (str_eqb s sid)) subs)) <> limit) ->
+  fst (subscribe c tk limit subs sid true true) = SubStarted.
+Proof.
+  intros P L. apply can_do_spec in P. unfold subscribe.
+  replace (negb (limit =? 0) && _) with false by (symmetry; destruct L as [->|L]; [reflexivity | apply andb_false_iff; right; lia]).
+  change subscribe_query_checked with true. simpl. rewrite P. reflexivity.
+Qed.
+
+(* ================================================================== output validator *)
+Section Output.
+Variable event ctx : Type.
+Variable check_output : option (event -> ctx -> bool).
+
+Lemma stored_checked_all b : stored_checked b = true.
+Proof. destruct b; reflexivity. Qed.
+
+Lemma deliver_stored_spec b x results e :
+  In e (deliver_stored event ctx check_output b x results) <-> In e results /\ passes event ctx check_output e x = true.
+Proof. unfold deliver_stored. rewrite stored_checked_all. apply filter_In. Qed.
+
+Lemma deliver_live_spec x matched e e' :
+  In e' (deliver_live event ctx check_output x matched e) <-> e' = e /\ matched = true /\ passes event ctx check_output e x = true.
+Proof.
+  unfold deliver_live. change live_output_checked with true. cbv iota.
+  destruct matched; [|simpl; split; [intros [] | intros (_ & H & _); discriminate]].
+  destruct (passes event ctx check_output e x); simpl; split.
+  - intros [<-|[]]. auto.
+  - intros (-> & _). auto.
+  - intros [].
+  - intros (_ & _ & H). discriminate.
+Qed.
+End Output.
+
+(* ================================================================== role storage: SQL *)
+Lemma last_assigned_app l1 l2 pk acc :
+  last_assigned (l1 ++ l2) pk acc = last_assigned l2 pk (last_assigned l1 pk acc).
+Proof. revert acc. induction l1 as [|[k v] l1 IH]; intros acc; simpl; [reflexivity | apply IH]. Qed.
+
+Lemma sql_get_set t pk roles pk' :
+  sql_get_row (sql_set_roles t pk roles) pk' = if str_eqb pk pk' then Some roles else sql_get_row t pk'.
+Proof.
+  induction t as [|[k v] t IH]; simpl.
+  - destruct (str_eqb pk pk'); reflexivity.
+  - destruct (str_eqb k pk) eqn:E; simpl.
+    + apply str_eqb_eq in E. subst k. destruct (str_eqb pk pk'); reflexivity.
+    + destruct (str_eqb k pk') eqn:E2.
+      * apply str_eqb_eq in E2. subst k. rewrite (str_eqb_sym pk pk'), E. reflexivity.
+      * exact IH.
+Qed.
+
+Definition sql_apply (t : auth_table) (assignments : list (pystr * pystr)) : auth_table :=
+  fold_left (fun t a => sql_set_roles t (fst a) (snd a)) assignments t.
+
+Lemma sql_apply_row assignments : forall t pk,
+  sql_get_row (sql_apply t assignments) pk = last_assigned assignments pk (sql_get_row t pk).
+Proof.
+  induction assignments as [|[k v] l IH]; intros t pk; simpl; [reflexivity|].
+  unfold sql_apply in *. simpl. rewrite IH, sql_get_set. rewrite (str_eqb_sym k pk). reflexivity.
+Qed.
+
+Lemma roles_readback_sql assignments pk :
+  sql_get_roles (sql_apply [] assignments) pk = expected_roles assignments pk.
+Proof. unfold sql_get_roles, expected_roles. rewrite sql_apply_row. simpl. reflexivity. Qed.
+
+(* ================================================================== role storage: LMDB service events *)
+Definition dsel (pk : pystr) (e : svc) : bool := str_eqb (sv_d e) pk.
+
+Lemma newest_only_d store pk : forall best,
+  newest store pk best = newest (filter (dsel pk) store) pk best.
+Proof.
+  induction store as [|e r IH]; intros best; simpl; [reflexivity|].
+  unfold dsel at 1. destruct (str_eqb (sv_d e) pk) eqn:E; simpl; [rewrite E|apply IH].
+  destruct best as [b|]; [destruct (sv_created b <? sv_created e)|]; apply IH.
+Qed.
+
+Definition kv_apply (store : list svc) (ops : list (Z * pystr * pystr)) : list svc :=
+  fold_left (fun s o => kv_set_roles s (fst (fst o)) (snd (fst o)) (snd o)) ops store.
+Definition op_time (o : Z * pystr * pystr) : Z := fst (fst o).
+Definition op_assign (o : Z * pystr * pystr) : pystr * pystr := (snd (fst o), snd o).
+
+(* per d value: nothing, or exactly the event of the last assignment *)
+Definition kv_inv (store : list svc) (done : list (pystr * pystr)) : Prop :=
+  forall pk, match last_assigned done pk None with
+             | Some v => exists t, filter (dsel pk) store = [{| sv_d := pk; sv_created := t; sv_content := lower_roles v |}]
+             | None => filter (dsel pk) store = []
+             end.
+
+Lemma filter_filter {A} (f g : A -> bool) l : filter f (filter g l) = filter (fun x => f x && g x) l.
+Proof. induction l as [|a l IH]; simpl; [reflexivity|]. destruct (g a); simpl; [destruct (f a); simpl; rewrite IH; reflexivity | rewrite andb_false_r; exact IH]. Qed.
+Lemma filter_ext_in' {A} (f g : A -> bool) l : (forall x, In x l -> f x = g x) -> filter f l = filter g l.
+Proof. induction l as [|a l IH]; intros H; simpl; [reflexivity|]. rewrite (H a (or_introl eq_refl)), IH; [reflexivity|]. intros x Hx. apply H. right; exact Hx. Qed.
+Lemma filter_none {A} (f : A -> bool) l : (forall x, In x l -> f x = false) -> filter f l = [].
+Proof. induction l as [|a l IH]; intros H; simpl; [reflexivity|]. rewrite (H a (or_introl eq_refl)). apply IH. intros x Hx. apply H. right; exact Hx. Qed.
+
+Lemma kv_set_inv store done now pk roles :
+  kv_inv store done -> (forall e, In e store -> sv_created e < now) ->
+  kv_inv (kv_set_roles store now pk roles) (done ++ [(pk, roles)]) /\
+  (forall e, In e (kv_set_roles store now pk roles) -> sv_created e <= now).
+Proof.
+  intros I B. split.
+  - intros pk'. rewrite last_assigned_app. unfold kv_set_roles.
+    change (last_assigned [(pk, roles)] pk' (last_assigned done pk' None))
+      with (if str_eqb pk pk' then Some roles else last_assigned done pk' None).
+    cbn [filter].
+    change (dsel pk' {| sv_d := pk; sv_created := now; sv_content := lower_roles roles |}) with (str_eqb pk pk').
+    rewrite filter_filter.
+    destruct (str_eqb pk pk') eqn:E.
+    + apply str_eqb_eq in E. subst pk'. exists now. f_equal.
+      apply filter_none. intros e He. unfold dsel. destruct (str_eqb (sv_d e) pk); simpl; [|reflexivity].
+      specialize (B e He). replace (sv_created e <? now) with true by lia. reflexivity.
+    + specialize (I pk').
+      assert (F : filter (fun x => dsel pk' x && negb (str_eqb (sv_d x) pk && (sv_created x <? now))) store = filter (dsel pk') store).
+      { apply filter_ext_in'. intros e He. unfold dsel. destruct (str_eqb (sv_d e) pk') eqn:D; [|reflexivity].
+        apply str_eqb_eq in D. rewrite D. rewrite (str_eqb_sym pk' pk), E. reflexivity. }
+      rewrite F. exact I.
+  - intros e [<-|He]; [simpl; lia|]. apply filter_In in He. destruct He as [He _]. specialize (B e He). lia.
+Qed.
+
+Lemma kv_apply_inv ops : forall store done,
+  kv_inv store done ->
+  StronglySorted (fun a b => op_time a < op_time b) ops ->
+  (forall e o, In e store -> In o ops -> sv_created e < op_time o) ->
+  kv_inv (kv_apply store ops) (done ++ map op_assign ops).
+Proof.
+  induction ops as [|[[t pk] roles] ops IH]; intros store done I S B; simpl.
+  - rewrite app_nil_r. exact I.
+  - inversion S as [|? ? S' F]; subst.
+    destruct (kv_set_inv store done t pk roles I) as [I' B'].
+    { intros e He. apply (B e (t, pk, roles) He). left; reflexivity. }
+    unfold kv_apply in *. simpl.
+    replace (done ++ op_assign (t, pk, roles) :: map op_assign ops) with ((done ++ [(pk, roles)]) ++ map op_assign ops)
+      by (rewrite <- app_assoc; reflexivity).
+    apply IH; [exact I' | exact S' |].
+    intros e o He Ho. specialize (B' e He). rewrite Forall_forall in F. specialize (F o Ho). unfold op_time in *. simpl in *. lia.
+Qed.
+
+(* assignments made at strictly increasing clock values read back as last set *)
+Lemma roles_readback_kv ops pk :
+  StronglySorted (fun a b => op_time a < op_time b) ops ->
+  kv_get_roles (kv_apply [] ops) pk = expected_roles (map op_assign ops) pk.
+Proof.
+  intros S.
+  assert (I : kv_inv (kv_apply [] ops) ([] ++ map op_assign ops)).
+  { apply kv_apply_inv; [intros k; reflexivity | exact S | intros e o []]. }
+  simpl in I. specialize (I pk). unfold kv_get_roles, expected_roles. rewrite newest_only_d.
+  destruct (last_assigned (map op_assign ops) pk None) as [v|].
+  - destruct I as [t ->]. simpl. rewrite str_eqb_refl. reflexivity.
+  - rewrite I. reflexivity.
+Qed.
+
